@@ -45,6 +45,11 @@ pub fn twin(p: &Program, t: &mut Tape) -> (Program, Vec<&'static str>) {
     if permute(&mut q.contract.overrides, t) {
         moved.push("override-declarations");
     }
+    // the attributes of one method: `sv::attr` above / below `sv::msg`
+    if t.chance(50) {
+        q.contract.flip_attr_order = !q.contract.flip_attr_order;
+        moved.push("method-attribute-order");
+    }
     (q, moved)
 }
 
